@@ -1044,56 +1044,53 @@ Example C02_quit_all_nonvacuous :
 Proof. vm_compute. repeat split. Qed.
 
 (* ================================================================================================================== *)
-(* Round i/j, translation tie: the `a` forms of ec_quit (xa, xa!) on the translated C text (coq/TrQuitAll.v, continuing TrQuit.v) *)
+(* Round i/j, translation tie: the `a` forms of ec_quit (xa, xa!) on the translated C text of /repo 37c81b2 (coq/TrQuitAll.v, continuing
+   TrQuit.v) *)
 From NV Require TrQuitAll.
 Section C02_translated_quit_all.
 Import CLite CLiteProps GenCFuncs CLiteTac CLiteExt TrLbufBase TrLbuf TrBufs TrQuit TrQuitAll.
 Local Open Scope Z_scope.
 
-(* for EVERY table, whatever the save of each occupied slot answers (sv i: NULL or a message; the lbuf_save oracle reads the buffer and
-   writes a file, it leaves the memory): after the write part, the 16 slots are visited in order and EVERY occupied one is handed to
-   lbuf_save with (lb, 0, -1, path, !!strchr(cmd, '!'), mtime) -- save_args; also a slot whose path is the empty string: the C text has no
-   test of the path --; qa = the first occupied slot whose save answered a message.  None: xquit = 1 is stored, 0 returned.  Slot j:
-   bufs_switch(j), ex_show(the message), 0 returned, xquit NOT stored (the memory is exactly what bufs_switch and ex_show left). *)
-Theorem C02_tr_ec_quit_all : forall ext m mw t cb cmd loc arg txt q0 ka sv d fuel, str_at m cb cmd -> Bytes.nonul cmd -> ptr_val arg ->
+(* for EVERY table and EVERY environment: TrQuitAll.arun ext cb cmd d fuel n i t m acc o is the run of the loop from slot i on: an empty
+   slot is stepped over; an occupied slot is handed to the oracle lbuf_save with save_args = (lb, 0, -1, path, !!strchr(cmd, '!'), mtime) on
+   the current memory -- also a slot whose path is the empty string: the C text has no test of the path --; a message ends the run (AFail i
+   message); NULL: the translated lbuf_saved(lb, 0) runs, the oracle mtime(path) is stored into the slot's mtime cell (set_cs_mtime: nothing
+   else of the table changes) and the run goes on with that table and memory; the environment's calls leave the table and the command string
+   in place, nothing else is assumed of them.  Then ec_quit, after its write part: all 16 slots done -> xquit = 1 stored, 0 returned;
+   AFail j message -> bufs_switch(j), ex_show(message), 0 returned, xquit NOT stored *)
+Theorem C02_tr_ec_quit_all : forall ext m mw t cb cmd loc arg txt q0 ka o d fuel, str_at m cb cmd -> Bytes.nonul cmd -> ptr_val arg ->
   write_part ext cb cmd arg m 0 mw ->
-  tab_at mw t -> tab_ok t -> lbs_ok t -> cell_at mw G_xquit q0 -> str_at mw cb cmd ->
+  tab_at mw t -> tab_ok t -> lbs_ok t -> paths_ok t -> str_at mw cb cmd ->
   find_byte 97 cmd = Some ka -> (16 < fuel)%nat ->
-  (forall i, (i < 16)%nat -> is_null (cs_lb (nths t i)) = false ->
-     ext X_lbuf_save (save_args t cmd i) mw = Ok (sv i, mw) /\ ptr_val (sv i)) ->
-  (forall i, (i < 16)%nat -> is_null (cs_lb (nths t i)) = false -> exists pb po, cs_path (nths t i) = VPtr pb po) ->
-  match qa t sv 16 0 with
-  | None => callx ext cprog fuel (S (S (S (S d)))) F_ec_quit [loc; VPtr cb 0; arg; txt] m = Ok (VInt 0, upd mw G_xquit [VInt 1])
-  | Some j => forall u2 m2 u1 m', callx ext cprog fuel (S (S (S d))) F_bufs_switch [VInt (Z.of_nat j)] mw = Ok (u2, m2) ->
-      ext X_ex_show [sv j] m2 = Ok (u1, m') ->
+  arun ext cb cmd d fuel 16 0 t mw [] o ->
+  match o with
+  | ADone t' m' _ => cell_at m' G_xquit q0 ->
+      callx ext cprog fuel (S (S (S (S d)))) F_ec_quit [loc; VPtr cb 0; arg; txt] m = Ok (VInt 0, upd m' G_xquit [VInt 1])
+  | AFail j r t' m2 _ => forall u2 m3 u1 m', callx ext cprog fuel (S (S (S d))) F_bufs_switch [VInt (Z.of_nat j)] m2 = Ok (u2, m3) ->
+      ext X_ex_show [r] m3 = Ok (u1, m') ->
       callx ext cprog fuel (S (S (S (S d)))) F_ec_quit [loc; VPtr cb 0; arg; txt] m = Ok (VInt 0, m')
   end.
 Proof. exact tr_ec_quit_all. Qed.
 Print Assumptions C02_tr_ec_quit_all.
 
-(* what qa says: it is None exactly when the save of EVERY occupied slot answered NULL -- no slot is exempt --; the slot it names is
-   occupied, its save answered a message and every occupied slot in front of it was saved *)
-Theorem C02_tr_quit_all_none : forall t sv, qa t sv 16 0 = None <->
-  (forall k, (k < 16)%nat -> is_null (cs_lb (nths t k)) = false -> is_null (sv k) = true).
-Proof. exact qa_none16. Qed.
-Print Assumptions C02_tr_quit_all_none.
-Theorem C02_tr_quit_all_some : forall t sv j, qa t sv 16 0 = Some j ->
-  (j < 16)%nat /\ is_null (cs_lb (nths t j)) = false /\ is_null (sv j) = false /\
-  (forall k, (k < j)%nat -> is_null (cs_lb (nths t k)) = false -> is_null (sv k) = true).
-Proof. exact qa_some16. Qed.
-Print Assumptions C02_tr_quit_all_some.
-(* so: ONE occupied slot whose save answers a message -- the slot of the buffer without a name, whose empty path cannot be created -- and
-   xquit is not stored, whatever the other slots hold and whatever their saves answer *)
-Theorem C02_tr_quit_all_refused : forall t sv k, (k < 16)%nat -> is_null (cs_lb (nths t k)) = false -> is_null (sv k) = false ->
-  exists j, qa t sv 16 0 = Some j /\ (j <= k)%nat.
-Proof. exact tr_ec_quit_all_refused. Qed.
-Print Assumptions C02_tr_quit_all_refused.
+(* what a run says -- no slot is skipped: when the loop ends normally the slots whose save answered NULL (each then marked saved, its
+   mtime refreshed) are ALL the occupied slots, in slot order, and the occupancy of the table is what it was; when slot j's save answered a
+   message (not NULL) the slots saved are exactly the occupied slots in front of j *)
+Theorem C02_tr_quit_all_saved : forall ext cb cmd d fuel n i t m acc o, (i + n = 16)%nat -> length t = 16%nat ->
+  arun ext cb cmd d fuel n i t m acc o ->
+  let occs := filter (occ t) (List.seq i n) in
+  match o with
+  | ADone t' _ sv => sv = rev acc ++ occs /\ (forall k, occ t' k = occ t k)
+  | AFail j r _ _ sv => exists pre post, occs = pre ++ j :: post /\ sv = rev acc ++ pre /\ is_null r = false
+  end.
+Proof. exact arun_saved. Qed.
+Print Assumptions C02_tr_quit_all_saved.
 
 (* not vacuous, and the translated ec_quit RUNS on "xa".  The table of C02_tr_quit_nonvacuous (three buffers a b c, structs in the blocks
    behind the globals), the path of the third one is the EMPTY string in `mem_of true`, "c" in `mem_of false`.  The oracle: ec_write answers
-   0, ex_show / reg_put leave the memory, lbuf_save answers a message (block B+7) exactly when the path it is given is the empty string,
-   NULL otherwise.  RUN with the unnamed buffer: 0 returned, xquit stays 0, the table is rotated (slot 0 is now c's struct): refused although
-   no buffer is modified.  RUN with all three named: xquit = 1.  qa says slot 2 resp. None for these answers. *)
+   0, ex_show / reg_put leave the memory, mtime answers 77, lbuf_save answers a message (block B+7) exactly when the path it is given is the
+   empty string, NULL otherwise.  RUN with the unnamed buffer: 0 returned, xquit stays 0, the table is rotated (slot 0 is now c's struct):
+   refused although no buffer is modified.  RUN with all three named: xquit = 1 and the mtime cell of slot 0 holds 77. *)
 Example C02_tr_quit_all_nonvacuous :
   let B0 := length cglobals in
   let empty_path (m : mem) (v : val) : bool :=
@@ -1102,6 +1099,7 @@ Example C02_tr_quit_all_nonvacuous :
     fun f args m =>
       if Nat.eqb f X_ex_show || Nat.eqb f X_reg_put then Ok (VUndef, m)
       else if Nat.eqb f X_ec_write then Ok (VInt 0, m)
+      else if Nat.eqb f X_mtime then Ok (VInt 77, m)
       else if Nat.eqb f X_lbuf_save then Ok ((if empty_path m (nth 3 args VUndef) then VPtr (B0 + 7)%nat 0 else VInt 0), m)
       else Err EShape in
   let sblk : block := repeat (VInt (-1)) 32%nat ++ repeat (VInt 0) 32%nat ++
@@ -1111,20 +1109,17 @@ Example C02_tr_quit_all_nonvacuous :
   let T0 : list cslot := [cslot_k 0%nat; cslot_k 1%nat; cslot_k 2%nat] ++ repeat cs_zero 13%nat in
   let mem_of (unnamed : bool) : mem := upd cglobals G_bufs (tab_cells T0) ++
     [sblk; sblk; sblk; cstr_block [97]; cstr_block [98]; cstr_block (if unnamed then [] else [99]); cstr_block [120; 97]; cstr_block [101]] in
-  let sv (unnamed : bool) (i : nat) : val := if unnamed && Nat.eqb i 2 then VPtr (B0 + 7)%nat 0 else VInt 0 in
   let run unnamed := callx ext1 cprog 20%nat 6%nat F_ec_quit [VInt 0; VPtr (B0 + 6)%nat 0; VPtr G_lit__0 0; VInt 0] (mem_of unnamed) in
   let cell (m : mem) (b i : nat) := match nth_error m b with Some blk => nth_error blk i | None => None end in
   let lbs (m : mem) := map (fun k => cell m G_bufs (41 * k + 33)%nat) [0; 1; 2; 3]%nat in
   tab_at (mem_of true) T0 /\ tab_ok T0 /\ lbs_ok T0 /\
-  qa T0 (sv true) 16 0 = Some 2%nat /\ qa T0 (sv false) 16 0 = None /\
-  map (fun i => ext1 X_lbuf_save (save_args T0 [120; 97]%N i) (mem_of true)) [0; 1; 2]%nat = map (fun i => Ok (sv true i, mem_of true)) [0; 1; 2]%nat /\
   match run true with
   | Ok (v, m') => v = VInt 0 /\ nth_error m' G_xquit = Some [VInt 0] /\
                   lbs m' = [Some (VPtr (B0 + 2)%nat 0); Some (VPtr B0 0); Some (VPtr (B0 + 1)%nat 0); Some (VInt 0)]
   | Err _ => False
   end /\
   match run false with
-  | Ok (v, m') => v = VInt 0 /\ nth_error m' G_xquit = Some [VInt 1] /\
+  | Ok (v, m') => v = VInt 0 /\ nth_error m' G_xquit = Some [VInt 1] /\ cell m' G_bufs 40%nat = Some (VInt 77) /\
                   lbs m' = [Some (VPtr B0 0); Some (VPtr (B0 + 1)%nat 0); Some (VPtr (B0 + 2)%nat 0); Some (VInt 0)]
   | Err _ => False
   end.
@@ -1132,28 +1127,6 @@ Proof.
   cbv zeta. set (B0 := length cglobals). vm_compute in B0. subst B0.
   split; [reflexivity|]. split; [split; [reflexivity|repeat constructor]|].
   split; [unfold lbs_ok; repeat (apply Forall_cons; [first [left; reflexivity | right; eexists; eexists; reflexivity]|]); apply Forall_nil|].
-  split; [vm_compute; reflexivity|]. split; [vm_compute; reflexivity|].
-  split; [vm_compute; reflexivity|].
   vm_compute. repeat split.
 Qed.
 End C02_translated_quit_all.
-
-(* the `a` loop of the C text against the model of round i/j: a model table describes the C table (tab_rel: the same slots occupied; the
-   answers sv are those of an environment in which a buffer WITHOUT a name cannot be saved), the environment's answers for the named slots in
-   slot order are the schedule the model consumes (sch_of).  Then the C loop stores xquit exactly when DirtyAllDefs.quit_n exits; and
-   therefore, for the C text: if xa stores xquit, every buffer of the table has a name and its file holds its text *)
-Section C02_translated_quit_all_model.
-Import CLite CLiteProps GenCFuncs CLiteTac CLiteExt TrLbufBase TrLbuf TrBufs TrQuit TrQuitAll.
-Theorem C02_tr_quit_all_is_model : forall t sv bang tab, length tab = 16%nat -> tab_rel t sv 0 tab ->
-  (qa t sv 16 0 = None <-> snd (fst (fst (quit_n true bang [] tab (sch_of sv 0 tab) []))) = true).
-Proof. exact tr_quit_all_is_model. Qed.
-Print Assumptions C02_tr_quit_all_is_model.
-Theorem C02_tr_quit_all_exit_sound : forall t sv bang tab, length tab = 16%nat -> tab_rel t sv 0 tab ->
-  Forall NInv (noccupied tab) -> qa t sv 16 0 = None ->
-  Forall (fun f => nname f <> None) (noccupied tab) /\
-  let t' := fst (fst (fst (quit_n true bang [] tab (sch_of sv 0 tab) []))) in
-  Forall (fun f => ln (lb (nb f)) = disk (nb f)) (noccupied t') /\
-  map (fun f => ln (lb (nb f))) (noccupied t') = map (fun f => ln (lb (nb f))) (noccupied tab).
-Proof. exact tr_quit_all_exit_sound. Qed.
-Print Assumptions C02_tr_quit_all_exit_sound.
-End C02_translated_quit_all_model.
